@@ -49,10 +49,10 @@ def run(chk):
 
     root0 = ET.XML('<r/>')
     # ---- 1. value comparison type table
-    cells = [(o, a, b) for o in range(6) for a in range(len(TY)) for b in range(len(TY))]
-    model = core.run_coq_cases('C07', IMPORTS, [f'run_vc {o} {a} {b}' for o, a, b in cells], chunk=700, tag='vc') if model_ok else [None] * len(cells)
-    P = XPath31Parser
-    for (o, a, b), mo in zip(cells, model):
+    cells = [(v, o, a, b) for v in (1, 0) for o in range(6) for a in range(len(TY)) for b in range(len(TY))]
+    model = core.run_coq_cases('C07', IMPORTS, [f'run_vc {v} {o} {a} {b}' for v, o, a, b in cells], chunk=700, tag='vc') if model_ok else [None] * len(cells)
+    for (v, o, a, b), mo in zip(cells, model):
+        P = XPath31Parser if v else XPath2Parser
         outcomes = set()
         for va in REP[TY[a]][:2]:
             for vb in REP[TY[b]][:2]:
@@ -68,18 +68,15 @@ def run(chk):
         chk.count('vc:' + OPS[o])
         if mo is None:
             continue
-        accepts, spec = mo
+        defined, spec = mo
         observable_defined = outcomes != {'XPTY0004'}
-        desc = {'op': OPS[o], 'types': [TY[a], TY[b]], 'outcomes': sorted(map(str, outcomes))}
-        # correspondence with the chain: if the chain rejects, XPTY0004 must be raised
-        if not accepts and observable_defined:
-            chk.corr_fail.append((desc, 'accepted', 'chain rejects'))
+        desc = {'parser': P.__name__, 'op': OPS[o], 'types': [TY[a], TY[b]], 'outcomes': sorted(map(str, outcomes))}
+        # correspondence with the chain + operator model: a value iff the model says so
+        if observable_defined != bool(defined):
+            chk.corr_fail.append((desc, 'value' if observable_defined else 'XPTY0004', 'value' if defined else 'XPTY0004'))
         if observable_defined != bool(spec):
-            if accepts != spec:
-                chk.known('C07-value-comparison-type-table', desc | {'spec_defined': bool(spec)})
-            else:
-                chk.violation('impl-vs-spec', desc, {'defined_on_impl': observable_defined, 'defined_by_F&O': bool(spec)})
-        chk.nontrivial.add(repr((o, a, b)))
+            chk.violation('impl-vs-spec', desc, {'defined_on_impl': observable_defined, 'defined_by_F&O': bool(spec)})
+        chk.nontrivial.add(repr((v, o, a, b)))
 
     # ---- 2. general comparisons on integer sequences (exists semantics) + untyped conversions
     gcases = []
@@ -142,17 +139,14 @@ def run(chk):
         if got != want:
             chk.violation('impl-vs-spec', {'expr': f'{a} {op} {b}'}, {'impl': got, 'spec': want})
 
-    # ---- 3. value comparison: NaN, order laws on samples, double tolerance
+    # ---- 3. value comparison: NaN, order laws on samples, doubles that differ by less than 1e-7 relative
     doubles = [0.0, 1.0, 1.00000001, 1.0000001, 1.000001, -1.0, 1e300, 1e300 * (1 + 1e-9), 5e-324, 1e-323, math.inf]
     for x, y in itertools.product(doubles, doubles):
         chk.evaluations += 1
         got = [select(None, f'$x {op} $y', variables={'x': x, 'y': y}, item=1, parser=XPath31Parser) for op in OPS]
         want = [x == y, x != y, x < y, x <= y, x > y, x >= y]
         if got != want:
-            if x != y and math.isclose(x, y, rel_tol=1e-7, abs_tol=0.0):
-                chk.known('C07-double-eq-tolerance', {'x': repr(x), 'y': repr(y), 'impl [eq,ne,lt,le,gt,ge]': got, 'spec': want})
-            else:
-                chk.violation('impl-vs-spec', {'x': repr(x), 'y': repr(y)}, {'impl [eq,ne,lt,le,gt,ge]': got, 'spec': want})
+            chk.violation('impl-vs-spec', {'x': repr(x), 'y': repr(y)}, {'impl [eq,ne,lt,le,gt,ge]': got, 'spec': want})
     # numeric type promotion in value comparisons: xs:integer / xs:decimal against xs:double are promoted to xs:double
     from decimal import Decimal
     big = [2 ** 53, 2 ** 53 + 1, 2 ** 53 + 2, -(2 ** 53) - 1, 10 ** 17 + 1, 10 ** 22, 10 ** 22 + 1, 3, 0]
